@@ -94,8 +94,15 @@ func runC14(a *A) {
 					bad = fmt.Sprintf("observed call sequence %q (A = analytic engine, F = WHERE predicate), expected %q", o.Tag, cs.want)
 				}
 			}
-			if len(outs) != 1 {
-				bad = fmt.Sprintf("%d paths under fixed conditions (a condition is not understood)", len(outs))
+			// conditions that have nothing to do with the order (a nil test of a metrics counter, a debug
+			// switch) fork the walk; every resulting path must show the expected sequence
+			if len(outs) == 0 {
+				bad = "no path through the function under the fixed conditions"
+			}
+			for _, o := range outs {
+				if o.Ended == "overflow" {
+					bad = "path budget exceeded"
+				}
 			}
 			a.Check(bad == "", construct, fn.Pos(), cs.what, cs.what+" — "+bad)
 		}
